@@ -120,22 +120,19 @@ func runC13(c *core.Ctx) {
 		})
 		// returned value on the reply path is the received value
 		retOK, detail := false, "no return of the received reply found"
-		var timerRet, replyRet *ssa.Return
-		core.Instrs(f, func(ins ssa.Instruction) {
-			r, ok := ins.(*ssa.Return)
-			if !ok || ins.Block() == f.Recover {
-				return
-			}
-			v := core.Resolve(core.RetVals(r)[0])
+		var timerRet, replyRet *core.RetCase
+		for _, rc0 := range core.ReturnCases(f) {
+			rc := rc0
+			v := core.Resolve(rc.Vals[0])
 			for _, rv := range recvVals {
 				if v == rv {
-					retOK, replyRet = true, r
+					retOK, replyRet = true, &rc
 				}
 			}
 			if sel != nil {
-				arm := selectArm(sel, r.Block())
+				arm := selectArmOf(sel, rc.Cmps())
 				if arm == selIdx {
-					replyRet = r
+					replyRet = &rc
 					// value = extract sel #(2+k) where k = index among receive states
 					if ex, ok := v.(*ssa.Extract); ok && ex.Tuple == ssa.Value(sel) && ex.Index >= 2 {
 						retOK = true
@@ -143,10 +140,10 @@ func runC13(c *core.Ctx) {
 						detail = "the reply arm does not return the received value"
 					}
 				} else if arm >= 0 {
-					timerRet = r
+					timerRet = &rc
 				}
 			}
-		})
+		}
 		c.Check(selfOK && retOK, "R1", key, p.Pos(f.Pos()), "receives from AskChannel(self, target) and returns the received value", fmt.Sprintf("%s (self/target passed through=%v): the asker can get another request's answer", detail, selfOK))
 		// R2 closes
 		nClose := 0
@@ -188,13 +185,13 @@ func runC13(c *core.Ctx) {
 		// R3 result shapes for the timeout variant
 		if sel != nil {
 			ok, d := true, "reply arm returns (reply, nil); timer arm returns (zero, ErrActorAskTimeout)"
-			if replyRet == nil || !core.IsNilConst(core.RetVals(replyRet)[1]) {
+			if replyRet == nil || !core.IsNilConst(core.Resolve(replyRet.Vals[1])) {
 				ok, d = false, "the reply arm does not return a nil error"
 			}
-			if timerRet == nil || core.GlobalName(core.RetVals(timerRet)[1]) != "ErrActorAskTimeout" {
+			if timerRet == nil || core.GlobalName(core.Resolve(timerRet.Vals[1])) != "ErrActorAskTimeout" {
 				ok, d = false, "the timeout arm does not return ErrActorAskTimeout"
-			} else if _, isConst := core.Resolve(core.RetVals(timerRet)[0]).(*ssa.Const); !isConst {
-				if !isZeroValue(core.RetVals(timerRet)[0]) {
+			} else if _, isConst := core.Resolve(timerRet.Vals[0]).(*ssa.Const); !isConst {
+				if !isZeroValue(timerRet.Vals[0]) {
 					ok, d = false, "the timeout arm does not return the zero value"
 				}
 			}
@@ -246,7 +243,12 @@ func runC13(c *core.Ctx) {
 
 // selectArm returns the select state index whose body dominates block b (via `extract sel #0 == k` facts), or -1.
 func selectArm(sel *ssa.Select, b *ssa.BasicBlock) int {
-	for _, m := range core.EdgeCmps(b) {
+	return selectArmOf(sel, core.EdgeCmps(b))
+}
+
+// selectArmOf: the select arm that the given comparisons place us in (index == k), or -1.
+func selectArmOf(sel *ssa.Select, cmps []core.Cmp) int {
+	for _, m := range cmps {
 		if ex, ok := m.X.(*ssa.Extract); ok && ex.Tuple == ssa.Value(sel) && ex.Index == 0 && m.Op == token.EQL {
 			if k, ok := m.Y.(*ssa.Const); ok {
 				return int(k.Int64())
